@@ -361,6 +361,40 @@ fn judge_report(report: &roto::RotoReport) -> Obs {
             plain = s;
         }
     }
+    // ---- the rendering cites the primary location: a single parse/type error must show the
+    // header `[ file:line:col ]` of its first location (ariadne silently drops the whole
+    // source view when it is handed a character range that does not fit the file)
+    if kinds.len() == 1 && (kinds[0] == "parse" || kinds[0] == "type") {
+        if let Some((file, start, _)) = locs.first() {
+            let f = &report.files[*file];
+            let c = &f.contents;
+            let exotic = c.contains(['\r', '\u{b}', '\u{c}', '\u{85}', '\u{2028}', '\u{2029}']);
+            let name = f.name();
+            let expected = if *start < c.len() && !exotic {
+                let before = &c[..*start];
+                let line = 1 + before.matches('\n').count() + f.location_offset;
+                let col = 1 + before.rsplit('\n').next().unwrap_or("").chars().count();
+                format!("[ {name}:{line}:{col} ]")
+            } else {
+                format!("[ {name}:")
+            };
+            if !plain.contains(&expected) {
+                return Obs {
+                    outcome,
+                    past_parser,
+                    compiled: false,
+                    viol: Some(Viol {
+                        class: "render-plain:location-not-shown".into(),
+                        phase: "render-plain",
+                        panic_loc: String::new(),
+                        panic_msg: String::new(),
+                        observed: json!({"expected_header": expected, "rendered": plain, "locations": locs}),
+                        detail: json!({"report": {"kinds": kinds, "locations": locs}}),
+                    }),
+                };
+            }
+        }
+    }
     outcome = mix(outcome, headline_bucket(&plain));
     Obs { outcome, past_parser, compiled: false, viol: None }
 }
